@@ -771,6 +771,20 @@ def gen_project(rng: random.Random, idx: int) -> dict:
         mb.append(f"nl{i} = declare_dependency(link_args: [{q(la)}])")
     mb.append(f"nexe3 = executable('nexe3', 'main.c', dependencies: [{', '.join(f'nl{i}' for i in range(len(lseq)))}]"
               f"{', link_with: l2' if rng.random() < 0.5 else ''}{base_kw('nexe3')})")
+    # a dependency that is read (by a target / a compiler check) and then copied with another include type: every copy
+    # contributes the arguments of ITS include type
+    zv_order = rng.choice(['read-by-target-first', 'read-by-check-first', 'copy-first'])
+    mb.append("zv = declare_dependency(compile_args: ['-I' + zq_src / 'zqv', '-DZQV=1', '-isystem' + zq_src / 'zqw'])")
+    if zv_order == 'read-by-target-first':
+        mb.append("zvexe1 = executable('zvexe1', 'main.c', dependencies: zv)")
+    elif zv_order == 'read-by-check-first':
+        mb.append("zq_cc.has_header('stdio.h', dependencies: zv)")
+    mb.append("zv_sys = zv.as_system('system')")
+    mb.append("zvexe2 = executable('zvexe2', 'main.c', dependencies: zv_sys)")
+    mb.append("zv_non = zv_sys.as_system('non-system')")
+    mb.append("zvexe3 = executable('zvexe3', 'main.c', dependencies: zv_non)")
+    if zv_order != 'read-by-target-first':
+        mb.append("zvexe1 = executable('zvexe1', 'main.c', dependencies: zv)")
     # several languages: arguments registered for ['c', 'cpp'], then for one language, then for both again
     multi: T.Optional[dict] = None
     if rng.random() < 0.5:
@@ -795,6 +809,7 @@ def gen_project(rng: random.Random, idx: int) -> dict:
     files: T.Dict[str, str] = {'meson.build': '\n'.join(mb) + '\n',
                                'zqe1.h': '#define ZQE1 1\n', 'zqe2.h': '#define ZQE2 1\n',
                                'zqs1/zqs.h': '/* 1 */\n', 'zqs2/zqs.h': '/* 2 */\n',
+                               'zqv/zqv.h': '/* v */\n', 'zqw/zqw.h': '/* w */\n',
                                'zc.c': 'int main(void) { return 0; }\n', 'zcpp.cpp': 'int main() { return 0; }\n',
                                'n.c': '#include <which.h>\nint main(void) { return WHICH; }\n',
                                'ninc_a/which.h': '#define WHICH 1\n', 'ninc_b/which.h': '#define WHICH 2\n',
@@ -850,10 +865,10 @@ def gen_project(rng: random.Random, idx: int) -> dict:
         argv.append('-Db_pie=true')
     if rng.random() < 0.3:
         argv.append('-Dc_std=' + rng.choice(['c99', 'gnu11']))
-    return {'idx': idx, 'files': files, 'argv': argv, 'macros': per_level_macro, 'nseq': nseq, 'iseq': iseq, 'lseq': lseq, 'cchecks': cchecks, 'env': env, 'env_c': env_c, 'env_ld': env_ld, 'env_shared': env_shared, 'tbase': tbase, 'multi': multi, 'tdirs': tdirs, 'ddirs': ddirs,
+    return {'idx': idx, 'files': files, 'argv': argv, 'macros': per_level_macro, 'nseq': nseq, 'iseq': iseq, 'lseq': lseq, 'cchecks': cchecks, 'env': env, 'env_c': env_c, 'env_ld': env_ld, 'env_shared': env_shared, 'zv_order': zv_order, 'env_o': (level_args['O'] if use_env else []), 'tbase': tbase, 'multi': multi, 'tdirs': tdirs, 'ddirs': ddirs,
             'sdirs': sdirs, 'dup_dir': dup_dir, 'use_sub': use_sub, 'global_args': level_args['G'],
             'project_args': level_args['P'], 'features': sorted(
-                [f'lib:{libkind}'] + [f'env:{k}' for k in env] + (['env:same-linker-option-in-CFLAGS-and-LDFLAGS'] if env_shared else []) + (['c+cpp'] if multi else []) + (['subproject'] if use_sub else []) + (['two-deps'] if two_deps else []) +
+                [f'lib:{libkind}'] + [f'dep-copy:{zv_order}'] + [f'env:{k}' for k in env] + (['env:same-linker-option-in-CFLAGS-and-LDFLAGS'] if env_shared else []) + (['c+cpp'] if multi else []) + (['subproject'] if use_sub else []) + (['two-deps'] if two_deps else []) +
                 (['dup-include-dir'] if dup_dir else []) + (['dep-isystem'] if dsys else []) +
                 (['isystem'] if sdirs else []) + [a.split('=')[0] for a in argv[2:]])}
 
@@ -1207,6 +1222,47 @@ def check_env_flags(proj: dict, src: str, tokens: T.List[str], link: bool) -> T.
     return cnt, bad
 
 
+def check_dependency_copies(proj: dict, src: str, target: str, tokens: T.List[str]) -> T.Tuple[T.Dict[str, int], T.List[T.Tuple[str, dict]]]:
+    """zvexe1 uses the dependency as declared, zvexe2 its as_system('system') copy, zvexe3 the 'non-system' copy of that
+    copy ("returns a copy of the dependency object, where the include_type has changed")."""
+    cnt = {'e2e:dependency-copy-include-type': 1}
+    bad: T.List[T.Tuple[str, dict]] = []
+    v, w = src + '/zqv', src + '/zqw'
+    want = {'zvexe1': ['-I' + v, '-isystem' + w], 'zvexe2': ['-isystem' + v, '-isystem' + w],
+            'zvexe3': ['-I' + v, '-I' + w]}[target]
+    forms = {'-I' + v, '-isystem' + v, '-I' + w, '-isystem' + w}
+    got = [t for t in tokens if t in forms]
+    if sorted(got) != sorted(want) or '-DZQV=1' not in tokens:
+        bad.append(('e2e-dependency-copy-carries-arguments-of-another-include-type',
+                    {'target': target, 'observed': got, 'expected': want, 'history': proj['zv_order']}))
+    elif got != [t for t in refargs.RefArgs(refargs.CLIKE, []).added(
+            {'zvexe1': ['-I' + v, '-DZQV=1', '-isystem' + w], 'zvexe2': ['-isystem' + v, '-DZQV=1', '-isystem' + w],
+             'zvexe3': ['-I' + v, '-DZQV=1', '-I' + w]}[target]).items if t in forms]:
+        bad.append(('e2e-dependency-copy-arguments-order', {'target': target, 'observed': got, 'history': proj['zv_order']}))
+    return cnt, bad
+
+
+def check_env_link_multiplicity(proj: dict, src: str, link_tokens: T.List[str]) -> T.Tuple[T.Dict[str, int], T.List[T.Tuple[str, dict]]]:
+    """$CFLAGS/$CPPFLAGS "will be added to the linker command line if the compiler acts as a linker driver"
+    (environment.py): a link line holds the words of $LDFLAGS and of the compile flags from the environment; the ones
+    that cannot be de-duplicated keep their multiplicity (a word given in both variables is there for both)."""
+    cnt = {'e2e:env-link-multiplicity': 1}
+    bad: T.List[T.Tuple[str, dict]] = []
+    t = refargs.CLIKE
+    ld = [x.replace('@SRC@', src) for x in proj['env_ld']]
+    cc_ = [x.replace('@SRC@', src) for x in proj['env_c']]
+    lost = {}
+    for a in sorted(set(ld + cc_)):
+        if t.kind(a) != refargs.NONE or t.prepends(a):
+            continue
+        want = ld.count(a) + cc_.count(a)
+        if link_tokens.count(a) != want:
+            lost[a] = {'on_line': link_tokens.count(a), 'expected': want}
+    if lost:
+        bad.append(('e2e-environment-flags-multiplicity-on-link-line', {'differences': lost, 'environment': proj['env']}))
+    return cnt, bad
+
+
 def check_target_base_args(proj: dict, target: str, tokens: T.List[str]) -> T.Tuple[T.Dict[str, int], T.List[T.Tuple[str, dict]]]:
     """Every target's compile line carries ITS OWN base arguments (gnu_symbol_visibility:, override_options of a b_*
     option), nobody else's."""
@@ -1297,11 +1353,17 @@ def run_project(proj: dict, root: T.Optional[str] = None) -> dict:
                 more.append(check_target_base_args(proj, mt.group(1), tokens) + (out, tokens))
             if proj.get('env_c') and out.endswith('.c.o'):
                 more.append(check_env_flags(proj, src, tokens, False) + (out, tokens))
-        if proj.get('env_ld') and not proj.get('env_shared'):
-            # (when the same token is in both variables the link line holds both copies; their mutual order is undocumented)
+        for out, tokens in stmts.items():
+            tgt = out.split('/')[0][:-2]
+            if tgt in ('zvexe1', 'zvexe2', 'zvexe3'):
+                more.append(check_dependency_copies(proj, src, tgt, tokens) + (out, tokens))
+        if proj.get('env'):
             for out, rule, var in parse_statements(ninja_text):
                 if rule == 'c_LINKER' and 'LINK_ARGS' in var and not out.startswith('subprojects/'):
-                    more.append(check_env_flags(proj, src, var['LINK_ARGS'], True) + (out, var['LINK_ARGS']))
+                    if proj.get('env_ld') and not proj.get('env_shared'):
+                        # (when the same token is in both variables their mutual order is undocumented: multiplicity only)
+                        more.append(check_env_flags(proj, src, var['LINK_ARGS'], True) + (out, var['LINK_ARGS']))
+                    more.append(check_env_link_multiplicity(proj, src, var['LINK_ARGS']) + (out, var['LINK_ARGS']))
         for cnt, bad, out, tokens in more:
             for k, v in cnt.items():
                 res['counters'][k] = res['counters'].get(k, 0) + v
@@ -1538,7 +1600,8 @@ def main() -> int:
               'e2e:compiler-check:incs', 'e2e:compiler-check:dep', 'e2e:compiler-check:lib',
               'meson:contract:compile-check-increment:several-dirs', 'meson:contract:to_native-result-independent',
               'contract:to_native-result-independent', 'read:to_native-kept-result', 'e2e:env-compile-flags',
-              'e2e:env-link-flags', 'e2e:target-base-args', 'meson:contract:check-link-option-args'):
+              'e2e:env-link-flags', 'e2e:target-base-args', 'meson:contract:check-link-option-args',
+              'e2e:dependency-copy-include-type', 'e2e:env-link-multiplicity'):
         chk.require(m, 1)
     if chk.counters.get('shadow:adopted', 0):
         chk.notes['adopted_in_process'] = chk.counters['shadow:adopted']
